@@ -181,6 +181,30 @@ func checkC02(e *Env) {
 		)
 	}
 
+	// (c') the reader refuses a file only for the reasons the format gives it in
+	// that version: b1 has no length limits (the writer applies none there), so a
+	// limit check in the reader would refuse what Write produces
+	if rp := e.fn("signedexchange.ReadExchangePrologue"); rp != nil {
+		tSig := "call:bigendian.Decode3BytesUint(local:sigLengthBytes)"
+		tHdr := "call:bigendian.Decode3BytesUint(local:headerLengthBytes)"
+		io := []gate.Gate{
+			gate.CallOK("R.magic", "io.ReadFull", "param:r", "*"),
+			gate.CallOK("R.version", "signedexchange/version.FromMagicBytes", "*"),
+			gate.CallOK("R.urllen", "binary.Read", "param:r", "global:binary.BigEndian", "*"),
+			gate.CallOK("R.url", "signedexchange.validateFallbackURL", "*"),
+			gate.CallOK("R.decode", "(*signedexchange.Exchange).decodeExchangeHeaders", "*", "*"),
+		}
+		for _, v := range sxgVersions {
+			gs := append([]gate.Gate{}, io...)
+			if v != "1b1" {
+				gs = append(gs,
+					gate.Cmp("R.sig-limit", tSig, token.LEQ, "const:16384"),
+					gate.Cmp("R.hdr-limit", tHdr, token.LEQ, "const:524288"))
+			}
+			rejectionsListed(e, "REJECT", rp, gate.Outcome{Kind: gate.ErrNil, Idx: 1}, sxgVersion(v), gs, "reads succeed, version known, fallback URL valid, headers decode; length limits only where the writer applies them")
+		}
+	}
+
 	// (d) header maps
 	// (f) the verifier's payload step refuses what MiEncodePayload produced on no ground other than the listed ones
 	vp := e.fn("signedexchange.verifyPayload")
